@@ -74,6 +74,8 @@ class Gen:
         self.consts = {}
         self.helpers = []     # (Func, kind)
         self.n = 0
+        self.taken = {'t', 'r', 'x', 'y', 'xs', 'ys', 'a', 'b', 'v', 'zs'}
+        self.pin = None       # category same-pin: the context caller and callees declare
         self.feats = set()
 
     def fresh(self, b):
@@ -84,6 +86,13 @@ class Gen:
         self.n += 1
         if self.cat == 'gensym-digits':
             return f'{b}{self.n}'
+        if self.cat in ('gen-names', 'lift-names'):
+            # the very names the passes generate: `t`, `ctx`, a callee name + a small counter
+            for _ in range(60):
+                nm = self.r.choice(['t', 'ctx', 'a', 'b', 'v', 'zs', 'r', 'u', 'acc']) + self.r.choice(['', str(self.r.randint(0, 45))])
+                if nm not in self.taken and nm not in ('a', 'b', 'v', 'zs', 'x', 'y', 'xs', 'ys'):
+                    self.taken.add(nm)
+                    return nm
         k, s = self.n, ''
         while True:
             s = 'abcdefghijklmnopqrstuvwxyz'[k % 26] + s
@@ -159,6 +168,9 @@ class Gen:
         r = self.r
         name = self.fresh({'pure': 'hp', 'mut': 'hm', 'wth': 'hw', 'chain': 'hc', 'multi': 'hr', 'loop': 'hl'}[kind])
         ctx = self.small_ctx() if r.random() < 0.5 else None
+        if self.pin is not None and r.random() < 0.75:
+            ctx = self.pin
+            self.feats.add('callee-pins-the-callers-context')
         self.feats.add('callee-declared-ctx' if ctx else 'callee-inherits-ctx')
         if kind == 'pure':
             params, rv, lv = ['a', 'b'], ['a', 'b'], []
@@ -294,12 +306,30 @@ class Gen:
     def main(self, body, rv_ret):
         ret = Node('return', Node('tuple', [V(x) for x in rv_ret] + [V('xs'), V('ys')]))
         ctx = self.small_ctx() if self.r.random() < 0.2 else None
+        if self.pin is not None:
+            ctx = self.pin
         return Func('main', ['x', 'y', 'xs', 'ys'], ctx, body + [ret])
 
     def program(self):
         r, cat = self.r, self.cat
         rv, lv = ['x', 'y'], ['xs', 'ys']
-        if cat in ('safe', 'safe-deep', 'gensym-digits'):
+        if cat == 'same-pin':
+            # caller and callees pin the SAME context; the calls sit in `with` blocks of other contexts, in loops
+            self.pin = r.choice([CtxSpec('IEEE', es=8, nbits=32, rm='RNE'), CtxSpec('MPFloat', p=r.randint(6, 9), rm='RNE'),
+                                 CtxSpec('MPSFloat', p=6, emin=-8, rm='RNE')])
+            hs = [self.helper('pure'), self.helper('mut')]
+            p1, m1 = hs[0][0], hs[1][0]
+            low = Node('ctor', 'IEEE', 'RNE', 'OVERFLOW', [lit(5), lit(16)]) if r.random() < 0.5 else Node('ctor', 'MPFloat', r.choice(RMODES), None, [lit(r.randint(2, 4))])
+            body = [asg('t', V('x')), asg('r', V('y')),
+                    Node('with', None, low,
+                         [asg('t', self.call_of(p1, 'pure', ['x', 'y', 't'], lv)),
+                          Node('for', PV('i'), Node('range', [lit(2)]),
+                               [asg('r', self.call_of(m1, 'mut', ['x', 'y', 't', 'r'], lv)),
+                                Node('with', None, self.ctx_expr(), [asg('t', self.call_of(p1, 'pure', ['t', 'r', 'i'], lv))])])]),
+                    asg('r', op2('add', V('r'), self.call_of(p1, 'pure', ['t', 'r'], lv)))]
+            body += self.site_stmts(['x', 'y', 't', 'r'], lv, 2, hs)
+            return self.finish(body, ['x', 'y', 't', 'r'])
+        if cat in ('safe', 'safe-deep', 'gensym-digits', 'gen-names'):
             kinds = ['pure', 'mut', 'wth', 'loop']
             r.shuffle(kinds)
             hs = [self.helper(k) for k in kinds[:r.randint(2, 3)]]
@@ -427,7 +457,9 @@ class Gen:
 # ---------------------------------------------------------------- lift_context / close programs
 def lift_program(r, cat):
     g = Gen(r, cat)
-    rv, lv = ['x', 'y'], ['xs']
+    # lift-names: the function's own parameter / locals carry the names the pass generates (`ctx`, `ctx<N>`)
+    yn = 'ctx' if cat == 'lift-names' else 'y'
+    rv, lv = ['x', yn], ['xs']
 
     def ctor(hdr_pos=False):
         rm = r.choice(RMODES) if r.random() < 0.4 else 'RNE'
@@ -465,6 +497,14 @@ def lift_program(r, cat):
                 out += [asg(d0, ctor()), Node('with', None, V(d0), [asg('acc', op2('add', V('acc'), V('x')))])]
         return out
     body = [asg('acc', V('x'))]
+    extra_ret = []
+    if cat == 'lift-names':
+        for k in sorted(r.sample(range(0, 14), 5)):
+            body.append(asg(f'ctx{k}', op2('add', V(rv[-1]), lit(k))))
+            rv.append(f'ctx{k}')
+            extra_ret.append(V(f'ctx{k}'))
+        loc = r.choice(['ctx_b', 'ctx99', 'ctx20'])
+        body += [asg(loc, g.ctx_const()), Node('with', None, V(loc), [asg('acc', op2('mul', V('acc'), V(yn)))])]
     if cat == 'lift-const-var':
         body += [asg('p', lit(r.randint(3, 6))),
                  Node('for', PV('z'), V('xs'), [Node('with', None, Node('ctor', 'MPFloat', 'RNE', None, [V('p')]),
@@ -474,7 +514,7 @@ def lift_program(r, cat):
     ctx = g.small_ctx() if (r.random() < 0.4 or cat == 'lift-computed') else None
     if cat == 'lift-computed':
         ctx = CtxSpec('MPFloat', p=2, rm='RNE')
-    f = Func('main', ['x', 'y', 'xs'], ctx, body + [Node('return', Node('tuple', [V('acc'), V('xs')]))])
+    f = Func('main', ['x', yn, 'xs'], ctx, body + [Node('return', Node('tuple', [V('acc'), V(yn), V('xs')] + extra_ret))])
     g.helpers = []
     return Program([f]), g
 
@@ -626,7 +666,7 @@ class RefusalSpy:
 KEY_OF_CAT = {
     'hoist-order': 'inline-hoist-past-earlier-operand',
     'conditional': 'inline-hoist-out-of-conditional',
-    'with-target': 'inline-with-target-not-renamed',
+    # 'with-target': repaired in /repo by 09c9f9c (RenameTarget._visit_context): a regression stream now
     'hdr-computed': 'inline-header-argument-context',
     'onelevel-freevar': 'inline-one-level-free-var-clash',
     'lift-computed': 'lift-computed-constructor-context',
@@ -695,7 +735,7 @@ def run(ck):
                     return
 
     # ------------------------------------------------------------ inline
-    cats = (['safe'] * 10 + ['safe-deep'] * 3 + ['expr-pure'] * 3 + ['arg-order', 'hoist-order', 'conditional', 'with-target',
+    cats = (['safe'] * 8 + ['same-pin'] * 2 + ['gen-names'] * 2 + ['safe-deep'] * 2 + ['expr-pure'] * 2 + ['arg-order', 'hoist-order', 'conditional', 'with-target',
             'with-target-used', 'comp-var', 'while-cond', 'hdr-computed', 'onelevel-freevar', 'gensym-digits'])
     nprog = 260 if thorough else 58
     import os
@@ -771,7 +811,7 @@ def run(ck):
                          'inlining changed the result of a function on an input on which the original returns',
                          key, dict(meta, transformed=res[1].format()))
         # repeated inlining: one site at a time until none is left (temp-name clashes across passes)
-        if cat in ('safe', 'safe-deep', 'expr-pure') and nsites >= 2 and idx % 3 == 0:
+        if cat in ('safe', 'safe-deep', 'expr-pure', 'gen-names', 'same-pin') and nsites >= 2 and idx % 3 == 0:
             cur, steps = main, 0
             while steps < 6:
                 res = apply_real(lambda cur=cur: inline(cur, 0, recursive=False))
@@ -851,7 +891,7 @@ def run(ck):
 
     # ------------------------------------------------------------ lift_context
     t0 = time.time()
-    lcats = ['lift'] * 6 + ['lift-computed', 'lift-const-var']
+    lcats = ['lift'] * 4 + ['lift-names'] * 2 + ['lift-computed', 'lift-const-var']
     nlift = 120 if thorough else 32
     if dbg:
         nlift = max(8, dbg // 3)
